@@ -15,9 +15,9 @@ import (
 
 func init() {
 	register(&propDef{
-		id: "C25",
+		id:      "C25",
 		explain: "Structural necessary conditions of 'every file the FS handler opens is closed exactly once and never while a response still reads it': (E1-file) typestate of fs.File / *os.File values in fs.go: a file obtained from an open call, or received by a function that takes ownership of it, is on every path closed, stored into an owning object, returned, or passed to a function that takes ownership - exactly once; functions that receive a file either always or never dispose of it (no mixed contracts); a failed open disposes of nothing; (E1-readers) in the request handler the reader count taken when the file is fetched from / put into the cache is given back exactly once on every path: decReadersCount, closing the reader, or handing the reader to the response as its body stream; (R-rmw) a tracking list (pendingFiles, bigFiles) that is read, filtered and written back is not written by a callee between the read and the write-back - otherwise entries appended in between are lost and their files never released; (E8) cache maps, pendingFiles, closed and readersCount are accessed only under cacheLock, bigFiles only under bigFilesLock. Not decided: eviction/reader interleavings, OS-level descriptor state.",
-		run: runC25,
+		run:     runC25,
 	})
 }
 
